@@ -286,4 +286,6 @@ def main(tier):
     units.report(run, fx, "C13")
     run.assumptions += ["the specification tables transcribed in tlint/props/c13.py",
                         "names state units (R4 seeds)"]
+    from ..rules import siblings
+    siblings.check_offset_rounding(run, fx)
     return run.finish(EXPLANATION)
